@@ -67,6 +67,9 @@ K_len == <<108, 101, 110>>
 K_msg == <<109, 115, 103>>
 K_prefix == <<112, 114, 101, 102, 105, 120>>
 K_wide_msg == <<119, 105, 100, 101, 95, 109, 115, 103>>      \* wide_msg: the message, padded / truncated to the rest of the line
+K_wide_bar == <<119, 105, 100, 101, 95, 98, 97, 114>>         \* wide_bar: the bar, filling the rest of the line
+BARG == 900                  \* cell of a bar glyph (the tokeniser gives 900 / 901 to the default progress characters)
+BARA == 3900                 \* atom: one or more bar glyphs
 Val(env, key) ==
     CASE key = K_k -> env.k
       [] key = K_pos -> Dec(env.pos)
@@ -82,6 +85,7 @@ ItemAlts(env, it) ==
     IF it.k = "lit" THEN {it.text}
     ELSE LET v == Val(env, it.text) IN
          IF it.text = K_wide_msg THEN {<<FLEX>> \o v \o <<FLEX>>}          \* fills the line: padding is free (the terminal is wider than the line)
+         ELSE IF it.text = K_wide_bar THEN {<<BARA>>}                      \* a bar of whatever width is left, nothing else
          ELSE IF ~it.hasw THEN {v}
          ELSE IF it.tr /\ ~Beyond16(it.w) /\ WNat(it.w) < Cols(v)
               THEN {<<FLEX>> \o p \o <<FLEX>> : p \in {q \in Pieces(v, 0) : Cols(q) <= WNat(it.w)}}
@@ -102,6 +106,7 @@ NormE(e, i, acc) ==
          IN IF sp /\ la > 0 /\ acc[la].g = SP
             THEN NormE(e, i + 1, [acc EXCEPT ![la] = [g |-> SP, n |-> @.n + (IF x = SP THEN 1 ELSE 0), flex |-> @.flex \/ x = FLEX]])
             ELSE IF sp THEN NormE(e, i + 1, Append(acc, [g |-> SP, n |-> IF x = SP THEN 1 ELSE 0, flex |-> x = FLEX]))
+            ELSE IF x = BARA THEN NormE(e, i + 1, Append(acc, [g |-> BARG, n |-> 1, flex |-> TRUE]))
             ELSE IF x = NL THEN NormE(e, i + 1, (IF la > 0 /\ acc[la].g = SP THEN [acc EXCEPT ![la].flex = TRUE] ELSE Append(acc, [g |-> SP, n |-> 0, flex |-> TRUE]))
                                                 \o <<[g |-> NL, n |-> 1, flex |-> FALSE]>>)
             ELSE NormE(e, i + 1, Append(acc, [g |-> x, n |-> 1, flex |-> FALSE]))
@@ -117,7 +122,9 @@ RECURSIVE NormP(_, _, _)
 NormP(p, i, acc) ==
     IF i > Len(p) THEN acc
     ELSE LET x == p[i] la == Len(acc) IN
-         IF x[1] >= 2000 \/ x[2] = 0 THEN NormP(p, i + 1, acc)
+         IF x[1] \in {900, 901} THEN (IF la > 0 /\ acc[la][1] = BARG THEN NormP(p, i + 1, [acc EXCEPT ![la] = <<BARG, @[2] + x[2]>>])
+                                       ELSE NormP(p, i + 1, Append(acc, <<BARG, x[2]>>)))
+         ELSE IF x[1] >= 2000 \/ x[2] = 0 THEN NormP(p, i + 1, acc)
          ELSE IF x[1] = SP /\ la > 0 /\ acc[la][1] = SP THEN NormP(p, i + 1, [acc EXCEPT ![la] = <<SP, @[2] + x[2]>>])
          ELSE NormP(p, i + 1, Append(acc, x))
 RECURSIVE StripP(_)
@@ -128,7 +135,8 @@ RECURSIVE Match(_, _, _, _)
 Match(E, i, P, j) ==
     IF i > Len(E) THEN j > Len(P)
     ELSE LET e == E[i] IN
-         IF e.g # SP THEN j <= Len(P) /\ P[j] = <<e.g, 1>> /\ Match(E, i + 1, P, j + 1)
+         IF e.g = BARG THEN j <= Len(P) /\ P[j][1] = BARG /\ P[j][2] >= 1 /\ Match(E, i + 1, P, j + 1)
+         ELSE IF e.g # SP THEN j <= Len(P) /\ P[j] = <<e.g, 1>> /\ Match(E, i + 1, P, j + 1)
          ELSE IF j <= Len(P) /\ P[j][1] = SP
               THEN (IF e.flex THEN P[j][2] >= e.n ELSE P[j][2] = e.n) /\ Match(E, i + 1, P, j + 1)
               ELSE e.flex /\ e.n = 0 /\ Match(E, i + 1, P, j)
